@@ -123,7 +123,49 @@ func valuesFollowSortedKeys(fn *ssa.Function, sortedKeysFns map[*ssa.Function]bo
 	if len(fn.Params) != 1 {
 		return false, "computed by a function of a different shape"
 	}
-	m := ssa.Value(fn.Params[0])
+	return valuesFollowIn(fn, fn.Params[0], sortedKeysFns, func(v ssa.Value) bool {
+		for _, ret := range an.Returns(fn) {
+			if an.Strip(ret.Results[0]) == an.Strip(v) || feedsValue(v, ret.Results[0]) {
+				return true
+			}
+		}
+		return false
+	})
+}
+
+// feedsValue: v reaches target through phis / appends only.
+func feedsValue(v, target ssa.Value) bool {
+	seen := map[ssa.Value]bool{}
+	var up func(x ssa.Value) bool
+	up = func(x ssa.Value) bool {
+		x = an.Strip(x)
+		if x == an.Strip(v) {
+			return true
+		}
+		if seen[x] {
+			return false
+		}
+		seen[x] = true
+		switch y := x.(type) {
+		case *ssa.Phi:
+			for _, e := range y.Edges {
+				if up(e) {
+					return true
+				}
+			}
+		case *ssa.Call:
+			if an.IsBuiltinCall(y, "append") {
+				return up(y.Call.Args[0])
+			}
+		}
+		return false
+	}
+	return up(target)
+}
+
+// valuesFollowIn: inside fn, a slice is filled with m[key] for key ranging over sortedKeys(m), in that order —
+// appended in loop order or stored at the key's own index — and that slice is the result (isResult).
+func valuesFollowIn(fn *ssa.Function, m ssa.Value, sortedKeysFns map[*ssa.Function]bool, isResult func(ssa.Value) bool) (bool, string) {
 	found := false
 	var why string
 	an.Instrs(fn, func(in ssa.Instruction) {
@@ -155,7 +197,7 @@ func valuesFollowSortedKeys(fn *ssa.Function, sortedKeysFns map[*ssa.Function]bo
 				for _, r2 := range an.Referrers(al) {
 					if sl, ok := r2.(*ssa.Slice); ok {
 						for _, r3 := range an.Referrers(sl) {
-							if call, ok := r3.(*ssa.Call); ok && an.IsBuiltinCall(call, "append") && feedsReturn(fn, call) {
+							if call, ok := r3.(*ssa.Call); ok && an.IsBuiltinCall(call, "append") && isResult(call) {
 								found = true
 							}
 						}
@@ -165,10 +207,8 @@ func valuesFollowSortedKeys(fn *ssa.Function, sortedKeysFns map[*ssa.Function]bo
 			}
 			// values[i] = m[keys[i]] with the same i
 			if dst.Index == ia.Index {
-				for _, ret := range an.Returns(fn) {
-					if an.Strip(ret.Results[0]) == an.Strip(dst.X) {
-						found = true
-					}
+				if isResult(dst.X) {
+					found = true
 				}
 			} else {
 				why = "stored at index " + an.D().Of(dst.Index) + " while the key is at index " + an.D().Of(ia.Index)
@@ -182,32 +222,6 @@ func valuesFollowSortedKeys(fn *ssa.Function, sortedKeysFns map[*ssa.Function]bo
 		why = "not collected as map[key] over the sorted key list"
 	}
 	return false, why
-}
-
-// sameHandle: the two values resolve to the same value, or to loads of the same field of the same base.
-func sameHandle(a, b an.FV) bool {
-	a, b = a.Resolve(nil), b.Resolve(nil)
-	if a.V == b.V {
-		return true
-	}
-	fa, ok1 := a.V.(*ssa.FieldAddr)
-	fb, ok2 := b.V.(*ssa.FieldAddr)
-	if !ok1 || !ok2 || !an.SameField(an.FieldOfAddr(fa), an.FieldOfAddr(fb)) {
-		return false
-	}
-	if (an.FV{V: fa.X, F: a.F}).Resolve(nil).V == (an.FV{V: fb.X, F: b.F}).Resolve(nil).V {
-		return true
-	}
-	// the bases as addresses: a captured variable is the cell it was bound to
-	addr := func(v ssa.Value) ssa.Value {
-		if fv, ok := v.(*ssa.FreeVar); ok {
-			if b := an.FreeVarBinding(fv); b != nil {
-				return b
-			}
-		}
-		return v
-	}
-	return addr(fa.X) == addr(fb.X)
 }
 
 func c16(c *core.Ctx, r *core.Report) {
@@ -473,17 +487,25 @@ func c16(c *core.Ctx, r *core.Report) {
 				nStores++
 				key := core.FuncName(fn) + "#static-values"
 				vc, isCall := an.Strip(st.Val).(*ssa.Call)
-				vf := an.Callee(vc)
-				if !isCall || vf == nil || !core.InModule(vf) || len(vc.Call.Args) != 1 {
-					r.Violation(key, an.Pos(c, in), "static label values are %s, not computed from the static label map by a function walking its sorted keys", an.D().Of(st.Val))
-					return
+				var vf *ssa.Function
+				if isCall {
+					vf = an.Callee(vc)
 				}
+				inline := !isCall || vf == nil || !core.InModule(vf) || len(vc.Call.Args) != 1
 				builds := an.FlatCalls(fn, flatDepth, func(_ ssa.CallInstruction, t *ssa.Function) bool { return t == bm })
 				if len(builds) != 1 || bmMap == nil {
 					r.Undecided(key, an.Pos(c, in), "cannot relate the map the values are computed from to the map the names were built from (%d builder calls here)", len(builds))
 					return
 				}
 				mapOfNames := an.EventFV(builds[0], builds[0].Call().Common().Args[an.ParamIndex(bmMap)]).Resolve(nil).V
+				if inline {
+					// computed in place: this function itself walks the sorted keys of the map the names were built from
+					okV, why := valuesFollowIn(fn, mapOfNames, sortedKeysFns, func(v ssa.Value) bool {
+						return an.Strip(v) == an.Strip(st.Val) || feedsValue(v, st.Val)
+					})
+					r.Check(okV, key, an.Pos(c, in), "values are map[key] for key ranging over the sorted keys of the map the names were built from", "static label values are "+an.D().Of(st.Val)+" ("+why+"): values are attached to the wrong label names")
+					return
+				}
 				mapOfVals := an.Strip(vc.Call.Args[0])
 				r.Check(mapOfNames == mapOfVals, key, an.Pos(c, in), "values computed from the same map the names were built from", "static label values come from "+an.D().Of(vc)+" while the names were built from "+an.D().Of(mapOfNames))
 				// the values function walks the sorted keys of its map and collects map[key] in that order
@@ -600,7 +622,7 @@ func c16(c *core.Ctx, r *core.Report) {
 				r.Check(okk, core.FuncName(fn)+"#observe", an.Pos(c, call), "series resolved through the vector at observation time", "the observer used is "+an.D().Of(call.Common().Value)+", not looked up from the vector now: after Metrics.Reset (next run in the same process) the cached series is detached and its samples are no longer exported")
 			}
 		}
-		r.Floor("Observe sites", n, 2)
+		r.Floor("Observe sites", n, 1)
 	})
 
 	rule(r, "C16.R4", "one iteration-metric sample per iteration / drop with the same outcome as the statistics (C01.R1, C01.R2); RecordIterationResult observes exactly once unless iteration metrics are disabled", func() {
